@@ -1,5 +1,6 @@
 """Rules about number representation shared by C01, C02, C10, C19."""
 import math
+import re
 
 from lib.peval import PE, ok as OK, some, byte, NONE
 from lib.prov import Prov
@@ -360,6 +361,24 @@ def finite(rep, ctx):
         else:
             r.bad(key, "the double handed to the JSON number constructor may be infinite or NaN (%s): it would be "
                   "printed as `inf`/`NaN`, which is not JSON" % verdict, c.where())
+    # the constructor handed on as a function value (`.map(JsonValue::from)`): its argument is whatever the adapter
+    # feeds it, i.e. the payload of the Option / Result / iterator it is applied to
+    for name, b in sorted(lib.bodies.items()):
+        for c in b.calls:
+            for ai, a in enumerate(c.args):
+                if a.get("k") == "const" and (a.get("s") == FROM_F64 or ("{%s}" % FROM_F64) in (a.get("ty") or "")):
+                    key = "%s#from_f64(fn value)" % short(name)
+                    pr = Prov(b, LOOK)
+                    verdict = "applied by %s to values that are not judged" % (c.name or "?")
+                    if ai >= 1 and c.args[0].get("k") in ("move", "copy"):
+                        v = _finite_safe(b, pr, c.args[0], c.bb, len(b.stmts(c.bb)), preserving, sources, lib, 0)
+                        verdict = None if v is None else "%s; payload: %s" % (c.name, v)
+                    if verdict is None:
+                        r.ok(key, "applied to a finite payload", c.where())
+                    else:
+                        r.bad(key, "the JSON number constructor is applied as a function value to a double that may "
+                              "be infinite or NaN (%s): it would be printed as `inf`/`NaN`, which is not JSON"
+                              % verdict, c.where())
     return r
 
 
@@ -757,4 +776,46 @@ def double_accept(rep, lib, rid="C01-DOUBLE-ACCEPT"):
                 r.ok(key, "rejected", b.where(), nontrivial=False)
             else:
                 r.bad(key, "a non-finite result is accepted", b.where())
+    return r
+
+
+# ------------------------------------------------------------------ C19-ORD-IDENTITY
+
+ORD_KEYED = ("std::collections::BTreeSet<", "std::collections::BTreeMap<", "std::collections::BinaryHeap<",
+             "std::collections::btree_set::", "std::collections::btree_map::")
+ORD_TABLED = {
+    "sorters::": "the --sort-by buckets: rows whose keys compare Equal share a bucket and are all kept, in arrival "
+                 "order (C07-FIFO / C07-STABLE); the key only orders them",
+}
+
+
+def ord_identity(rep, lib, rid="C19-ORD-IDENTITY"):
+    """`Ord for JsonValue` orders numbers by their value as doubles: two different 64-bit integers can compare Equal.
+    That is harmless for ordering, but a collection that *identifies* its elements by Ord (BTreeSet / BTreeMap keys,
+    dedup_by on a comparison, binary_search) merges such values into one. Values are identified by `==` / Hash only."""
+    r = rep.rule(rid, "JSON values are never identified by their order: no BTreeSet / BTreeMap / BinaryHeap keyed by "
+                 "JsonValue (two different 64-bit integers that share a double compare Equal and would be merged) "
+                 "outside the tabled --sort-by buckets, which keep every row of a key", floor=1,
+                 analysis="A7 census of local types and generic arguments in every body")
+    pat = re.compile(r"(BTreeSet|BTreeMap|BinaryHeap)<(?:&\s*)?(?:std::option::Option<)?json_value::JsonValue")
+    n = 0
+    for name, b in sorted(lib.bodies.items()):
+        hits = sorted({l["ty"] for l in b.locals if pat.search(l["ty"] or "")})
+        for c in b.calls:
+            for g in (c.gargs or []):
+                if pat.search(g):
+                    hits.append(g)
+        if not hits:
+            continue
+        key = short(name)
+        tabled = [why for pre, why in ORD_TABLED.items() if name.startswith(pre) or ("<" + pre) in name[:len(pre) + 2]]
+        if tabled:
+            n += 1
+            r.ok(key, "tabled: " + tabled[0][:80], b.where(), nontrivial=False)
+        else:
+            r.bad(key, "holds JSON values in %s: elements that compare Equal under Ord are merged, and Ord compares "
+                  "numbers as doubles - two different integers above 2^53 (and any two values `=` tells apart but Ord "
+                  "does not) collapse into one" % hits[0][:120], b.where())
+    if n == 0:
+        r.ok("census", "no order-keyed collection of JSON values", "", nontrivial=False)
     return r
